@@ -1,4 +1,5 @@
 CONSTANTS
+  defaultInitValue = "connecting"
   Impl = "fixed"
   Start = "open"
   WithP = FALSE
